@@ -119,6 +119,7 @@ type snapModel struct {
 }
 
 type world struct {
+	extraClientHook func(c *simbe.Client) // applied to a process's client for a second repository (copy's source)
 	forcedFired int // scripted faults (errbefore/errafter/sticky) that fired
 	r     *hx.Rec
 	s     *simrt.Sim
@@ -288,6 +289,9 @@ func (w *world) clientFor(p *simrt.Proc, cfg string, main *simbe.Client) *simbe.
 	}
 	c := st.NewClient(p, w.cfg.Conns, w.cfg.Atomic)
 	c.F = main.F
+	if w.extraClientHook != nil {
+		w.extraClientHook(c)
+	}
 	return c
 }
 
